@@ -23,11 +23,15 @@ type YNode struct {
 	Comment string
 }
 
-func ymap() *YNode                     { return &YNode{Kind: "map"} }
-func (n *YNode) put(k string, v *YNode) *YNode { n.Keys = append(n.Keys, k); n.Vals = append(n.Vals, v); return n }
-func ystr(s string) *YNode             { return &YNode{Kind: "scalar", Text: s, IsStr: true} }
-func yraw(s string) *YNode             { return &YNode{Kind: "scalar", Text: s} }
-func ylist(items ...*YNode) *YNode     { return &YNode{Kind: "list", Items: items} }
+func ymap() *YNode { return &YNode{Kind: "map"} }
+func (n *YNode) put(k string, v *YNode) *YNode {
+	n.Keys = append(n.Keys, k)
+	n.Vals = append(n.Vals, v)
+	return n
+}
+func ystr(s string) *YNode         { return &YNode{Kind: "scalar", Text: s, IsStr: true} }
+func yraw(s string) *YNode         { return &YNode{Kind: "scalar", Text: s} }
+func ylist(items ...*YNode) *YNode { return &YNode{Kind: "list", Items: items} }
 
 // Style controls the surface form.
 type Style struct {
